@@ -1,0 +1,12 @@
+//go:build verif
+
+package structs
+
+// Contracts for the goverif VC generator (/verif). Comment-only file: it adds no code.
+
+// `if` as a method tests the piped-in stdout together with the exit number of the command that
+// produced it (the previous process), with the same truthiness function as everywhere else.
+//@ func cmdIf [C07]
+//@   scope functional
+//@   requires p != nil
+//@   at call IsTrue#2 assert arg1 == p.Previous.ExitNum
